@@ -200,6 +200,25 @@ class C04(C02):
                 lines = ["pre", gen.U_OPEN] + list(body)[:k] + [gen.U_CLOSE, "post"]
                 yield self.mk("\n".join(lines) + "\n", "<", ">", proto.DEFAULT_CFG, "unwrap-too-short")
         yield self.mk("a " + gen.U_OPEN + " b " + gen.U_CLOSE + " c\n", "<", ">", proto.DEFAULT_CFG, "unwrap-one-line")
+        # elements whose condition attribute is missing, valueless, empty or unparsable, under configurations that
+        # make a default value meaningful (the empty string as a target, an empty / odd offset, now far in the future)
+        bodies = ["rm", "rm name", "rm nam='a'", "rm name=''", "rm name=a", "rm  name", "rm c='name' name", "rm unwrap-block",
+                  "tl", "tl to", "tl to=''", "tl to='x'", "tl t='2000-01-01 00:00:00'", "tl to=2000-01-01", "tl to unwrap-block",
+                  "tl name=''", "rm to='2000-01-01 00:00:00'"]
+        cfgs2 = [Cfg(targets=("",)), Cfg(targets=("", "a")), Cfg(targets=("name", "")), Cfg(off="", targets=("",)),
+                 Cfg(now=4102444800, targets=("",)), Cfg(now=4102444800, off="", targets=("", "x")),
+                 Cfg(tl="rm", rm="rm", targets=("",)), Cfg(tl="tl", rm="tl", targets=("",))]
+        for b in bodies:
+            name = b.split(" ")[0]
+            for cfg in cfgs2:
+                for lay in ("block", "inline", "unwrap"):
+                    if lay == "block":
+                        d = "a\n<%s>\nkeep me\n</%s>\nb\n" % (b, name)
+                    elif lay == "inline":
+                        d = "a <%s>keep</%s> b\n" % (b, name)
+                    else:
+                        d = "a\n  <%s>\n  {\n    keep\n  }\n  </%s>\nb\n" % (b, name)
+                    yield self.mk(d, "<", ">", cfg, "malformed-condition")
 
     def oracle(self, case, impl, spec):
         k, v = parse_reply(impl[0])
@@ -312,8 +331,13 @@ class C06(Base):
     def mk_probe(self, attrs, cfg, tagname, expect, label):
         """attrs: list of (name, value|None)"""
         body = tagname
-        for (n, v) in attrs:
-            body += " " + n if v is None else " %s='%s'" % (n, v)
+        for i, (n, v) in enumerate(attrs):
+            if v is None:
+                body += " " + n
+            else:
+                # quote character: the one the value does not contain; otherwise alternate by position
+                q = '"' if "'" in v else ("'" if '"' in v else ("'", '"')[(i + len(v)) % 2])
+                body += " %s=%s%s%s" % (n, q, v, q)
         doc = "x\n<" + body + ">\ny\n</" + tagname + ">\nz\n"
         return Case(label, [req("clean", doc, cfg=cfg)],
                     {"replay": True, "probe": True, "attrs": attrs, "cfg": cfg.to_json(), "tag": tagname, "expect": expect, "label": label},
@@ -342,6 +366,8 @@ class C06(Base):
     def cases(self, rng, tier):
         n = quick(tier, 6000, 150000)
         safe_names = [x for x in gen.NAME_POOL if "'" not in x and ">" not in x and "<" not in x]
+        # names containing one kind of quote character: the value is opaque, membership is whole-string
+        safe_names = safe_names + ["f1'b", 'f1"b', "f1", "a' skip x='"]
         for i in range(n):
             targets = tuple(sorted(set(rng.choice(safe_names) for _ in range(rng.choice([0, 1, 1, 2, 3])))))
             tl, rm = rng.choice([("tl", "rm"), ("tl", "rm"), ("rm", "rm"), ("time-limited", "removal-marker"), ("é", "印")])
@@ -357,7 +383,7 @@ class C06(Base):
                 elif r < 0.65:
                     attrs.append(("to", gen.READY_T))
                 elif r < 0.8:
-                    attrs.append(("c", rng.choice(["skip", "a skip b", "unwrap-block", "name=a", " skip "])))
+                    attrs.append(("c", rng.choice(["skip", "a skip b", "unwrap-block", "name=a", " skip ", "don't skip it", 'say "skip" now', "' skip '", '" skip "'])))
                 elif r < 0.9:
                     attrs.append(("skip", None))
                 else:
